@@ -202,4 +202,34 @@ Section SfNested.
         by (apply seal_nonempty; apply sort_fmts_nonempty; exact Hreq).
       destruct (Hcv p c Hpc Hne Hes) as [sz Hsz]. apply in_map_iff. eexists. split; [|exact Hsz]. reflexivity.
   Qed.
+
+  (* C06, unconditionally: ANY sequence of create runs (folder mode without -dr, and -sf, in any mix, any formats, options
+     and patterns) on ANY well-formed tree whose histories load: no run is aborted, every later load succeeds, and every
+     history that existed at the start only grew (old generations and chain entries a prefix, the added ones numbered
+     consecutively) -- whatever the runs found: altered files, missing files, new files *)
+  Definition no_dr (r : crun) : Prop := match r with RFolder _ _ dr _ _ => dr = false | RSf _ _ _ _ => True end.
+  Theorem runs_append_unconditional rs : forall h0 kids hs, Forall no_dr rs ->
+    wf_tree C (Dir h0 kids) -> load C cdig (Dir h0 kids) = inl hs ->
+    Forall (fun o => o_outcome o <> Abort) (snd (runs Hb matches C cdig ser (Dir h0 kids) rs)) /\
+    exists hs', load C cdig (fst (runs Hb matches C cdig ser (Dir h0 kids) rs)) = inl hs' /\ Forall2 (ext C cdig ser) hs hs'.
+  Proof.
+    induction rs as [|r rs IH]; intros h0 kids hs Hnd Hw Hl; cbn [runs].
+    - split; [constructor|]. exists hs. split; [exact Hl|]. clear. induction hs; constructor; [apply ext_refl|assumption].
+    - inversion Hnd as [|? ? Hr Hnd']; subst.
+      destruct (run1 Hb matches C cdig ser (Dir h0 kids) r) as [t1 o1] eqn:E1. cbn [fst snd].
+      assert (Ho1 : o_outcome o1 <> Abort).
+      { destruct r as [req no_dh dr ip ifl|req sf ip ifl]; cbn [run1 no_dr] in E1, Hr.
+        - subst dr. pose proof (create_nested_never_aborts Hb matches C cdig ser h0 kids hs req no_dh ip ifl Hw Hl) as H. rewrite E1 in H. exact H.
+        - pose proof (create_sf_nested_never_aborts h0 kids hs req sf ip ifl Hw Hl) as H. rewrite E1 in H. exact H. }
+      assert (H1 : exists hs1, load C cdig t1 = inl hs1 /\ one_more C cdig ser hs (o_written o1) hs1 /\ wf_tree C t1 /\ exists h' kids', t1 = Dir h' kids').
+      { destruct r as [req no_dh dr ip ifl|req sf ip ifl]; cbn [run1] in E1.
+        - eapply create_folder_then_reload; eauto.
+        - eapply create_sf_then_reload; eauto. }
+      destruct H1 as [hs1 [Hl1 [Hom [Hw1 [h1 [kids1 ->]]]]]].
+      destruct (IH h1 kids1 hs1 Hnd' Hw1 Hl1) as [Hos [hs' [Hl' Hext]]].
+      destruct (runs Hb matches C cdig ser (Dir h1 kids1) rs) as [t' os] eqn:Er. cbn [fst snd] in *.
+      split; [constructor; assumption|]. exists hs'. split; [exact Hl'|].
+      assert (H01 : Forall2 (ext C cdig ser) hs hs1) by (eapply one_more_ext; [apply (load_roots_NoDup C cdig _ _ Hw Hl)|exact Hom]).
+      clear -H01 Hext. revert hs' Hext. induction H01 as [|a b la lb Hab _ IHl]; intros hs' Hext; inversion Hext; subst; constructor; [eapply ext_trans; eauto|auto].
+  Qed.
 End SfNested.
